@@ -67,33 +67,33 @@ func (w *World) execOp(t int, op OpM) (out string) {
 		}
 	}()
 	ctx := w.taskCtx[t]
-	root := func() hcl.Body { return w.rootTgts[op.Target%len(w.rootTgts)] }
+	root := func() hcl.Body { return w.rootTarget(op.Target) }
 	switch op.Kind {
 	case "value":
-		i := op.Expr % len(w.exprs)
+		e, name := w.expr(op.Expr)
 		c := ctx
 		if op.NilCtx {
 			c = nil
 			w.rs.pt[t].probes[pNilCtxSplat]++
 		}
-		v, d := w.exprs[i].Value(c)
-		return "value " + w.exprNames[i] + " = " + dumpVal(v) + " !" + dumpDiags(d)
+		v, d := e.Value(c)
+		return "value " + name + " = " + dumpVal(v) + " !" + dumpDiags(d)
 	case "variables":
-		i := op.Expr % len(w.exprs)
-		return "variables " + w.exprNames[i] + " = " + dumpTraversals(w.exprs[i].Variables())
+		e, name := w.expr(op.Expr)
+		return "variables " + name + " = " + dumpTraversals(e.Variables())
 	case "content":
-		be := w.bodies[op.Target%len(w.bodies)]
+		be := w.body(op.Target)
 		sel, _ := maskSchema(w.kindSchema(be.kind), op.Mask|op.Mask>>7)
 		c, d := be.body.Content(sel)
 		return "content " + dumpContent(c) + " !" + dumpDiags(d)
 	case "partial":
-		be := w.bodies[op.Target%len(w.bodies)]
+		be := w.body(op.Target)
 		sel, rest := maskSchema(w.kindSchema(be.kind), op.Mask)
 		c, remain, d := be.body.PartialContent(sel)
 		c2, d2 := remain.Content(rest)
 		return "partial " + dumpContent(c) + " !" + dumpDiags(d) + " || remain " + dumpContent(c2) + " !" + dumpDiags(d2)
 	case "just_attrs":
-		be := w.bodies[op.Target%len(w.bodies)]
+		be := w.body(op.Target)
 		a, d := be.body.JustAttributes()
 		return "just_attrs " + dumpAttrs(a) + " !" + dumpDiags(d)
 	case "decode":
